@@ -19,6 +19,7 @@ type SolverCfg struct {
 	Parallel int
 	All      bool // run all solvers and compare (thorough)
 	Seed     int
+	FullOnly bool // only the full, pattern-based encoding (second-chance pass)
 }
 
 func solverCmd(name, file string, timeout time.Duration, seed int) *exec.Cmd {
@@ -94,6 +95,10 @@ func Solve(o *Obligation, cfg *SolverCfg) {
 		c2 := *cfg
 		c2.Timeout = 3 * time.Second
 		cfg = &c2
+	}
+	if cfg.FullOnly {
+		solveWith(o, cfg, o.SMT, "")
+		return
 	}
 	if o.SMTFocus != "" && o.Kind != "vacuity" {
 		// first a short attempt with every assumption, then the focused variant (a proof from fewer
